@@ -223,6 +223,23 @@ def _valchk(run: Run, prog: Program, model: Model, st: SchemaType, ta: TypeAutom
                             if ro & set(rv):
                                 cond = [("" if b else "not ") + k for k, b in o.preds if not k.startswith(("lt(", "eq("))]
                                 leaky = (sorted(ro & set(rv)), cond)
+                    # the same obligation in every other state that holds the payload (after further refinements): an
+                    # accepting path there must still exclude the validator's failing relation between argument and payload
+                    if rv is not None and rd and rv <= rd and leaky is None and payload != "elements":
+                        for S in sorted(ta.states, key=lambda z: (len(z), sorted(z))):
+                            if payload not in S or S == pstate or leaky is not None:
+                                continue
+                            for o in ta.trans.get((S, sh.key), []):
+                                if o.kind != "ACCEPT":
+                                    continue
+                                ro = {"LT", "EQ", "GT"}
+                                for t, b in o.pred_terms:
+                                    rr = relation(t, b, x, y)
+                                    if rr is not None:
+                                        ro &= set(rr)
+                                if ro & set(rv):
+                                    leaky = (sorted(ro & set(rv)), [f"the schema already declares {{{', '.join(sorted(S - {payload}))}}}"])
+                                    break
                     if rv is not None and rd and rv <= rd and leaky is not None:
                         run.violated("VALCHK", construct, site,
                                      f"an accepting path of {sh.label} does not establish the check: ({x} ? {y}) may be {leaky[0]} "
